@@ -500,6 +500,7 @@ def run_unit(seed=None, unit=None, tier="quick", stats=None):
         incremental = True
     if focus == "background":
         stop_kind = "none"
+        incremental = True
     if focus == "earlyclose":
         # early execution, consumer closes before / right after the first payload, and whatever
         # is in flight at that instant never completes by itself
@@ -538,6 +539,7 @@ def run_unit(seed=None, unit=None, tier="quick", stats=None):
             scn, st, stop_factory=factory, lenient=True,
             force_early=(True if focus in ("earlyclose", "streamfail")
                          else r != 2 if focus == "nullroot"
+                         else True if focus == "background" and r == 1
                          else False if focus == "abortstream" and r != 1 else None),
             force_capacity=(1, 2)[r % 2] if focus == "abortstream" else None)
         bump(stats, "counts", "execs", len(reqs))
